@@ -21,6 +21,7 @@ def run_C19(ctx, rep):
     lib_rules.check_L7(ctx, rep)
     lib_rules.check_L13(ctx, rep)
     lib_rules.check_L27(ctx, rep)
+    lib_rules.check_L31(ctx, rep)
 
 
 def run_C20(ctx, rep):
@@ -111,11 +112,13 @@ def run_C12(ctx, rep):
 
 def run_C05(ctx, rep):
     lib_rules.check_L1(ctx, rep)
+    lib_rules.check_L31(ctx, rep)
     gen_driver.run_gen(ctx, rep, ['G1G3', 'USES', 'G5', 'G14', 'G15'], floors={'G1': 300, 'G1.lat': 20, 'G1.uses': 800, 'G5': 250, 'G15': 15})
 
 
 def run_C02(ctx, rep):
     lib_rules.check_L1(ctx, rep)
+    lib_rules.check_L31(ctx, rep)
     lib_rules.check_L13(ctx, rep)
     gen_driver.run_gen(ctx, rep, ['G1G3', 'G2G7', 'G5', 'G6', 'G10', 'G12', 'G14', 'G15'], only_par=True, floors={'G1': 100, 'G6': 15, 'G10': 15, 'G4': 4, 'G14': 100, 'G15': 15})
     gen_driver.run_ser_par_twins(ctx, rep)
@@ -153,7 +156,7 @@ def run_C15(ctx, rep):
         rep.viol('W', 'corpus family ' + m, 'well-formed-rejected',
                  'well-formed programs of the corpus no longer compile: ' + (ctx.meta.get('corpus_first_error', {}).get(m) or 'see stderr'))
     n = witness_rules.run_witnesses(ctx, rep, ctx.tier)
-    rep.floor('W', 165 if ctx.tier == 'quick' else 790, 'compile witnesses')
+    rep.floor('W', 175 if ctx.tier == 'quick' else 840, 'compile witnesses')
     return {'cov': {'exhaustive': True, 'witness_tier': ctx.tier}}
 
 
@@ -188,8 +191,9 @@ def run_C08(ctx, rep):
 def run_C09(ctx, rep):
     names = ('pk_ascent', 'pk_ascent_par', 'pk_init_ascent', 'timeout', 'timeout_par', 'ruletimes', 't_redecl', 't_redecl_clear', 'generic',
              'inc_start', 'inc_mid', 'inc_end', 'inc_start_par', 'inc_mid_par', 'inc_end_par',
-             'inc_redecl_after', 'inc_redecl_before', 'inc_redecl_around', 'inc_agg', 'inc_agg_par', 'inc_lat')
-    gen_driver.run_twins(ctx, rep, lambda n, k: n in names, floors={'T.C': 19})
+             'inc_redecl_after', 'inc_redecl_before', 'inc_redecl_around', 'inc_agg', 'inc_agg_par', 'inc_lat',
+             'inc_attr_mrt', 'inc_attr_to', 'inc_attr_irp', 'inc_attr_two')
+    gen_driver.run_twins(ctx, rep, lambda n, k: n in names, floors={'T.C': 23})
     gen_driver.run_gen(ctx, rep, ['G2G7', 'G8'], floors={'G7': 6, 'G8': 60})
     # ascent_run!: the rules mean what their text says, captured locals included (they are constants of the rule)
     gen_driver.run_tv(ctx, rep, only_tags=['run'], floors={'R1': 10})
@@ -199,7 +203,7 @@ def run_C06(ctx, rep):
     names = ('t_perm_rules', 't_perm_decls', 't_perm_heads', 't_perm_body', 't_renamed', 'generic')
     gen_driver.run_twins(ctx, rep, lambda n, k: n.replace('_par', '') in names, floors={'T.L': 4, 'T.S': 4, 'T.C': 2})
     gen_driver.run_tv(ctx, rep, floors={'R3': 80})
-    gen_driver.run_gen(ctx, rep, ['G12', 'G3r'], floors={'G12': 40, 'G3r': 100, 'G13': 30})
+    gen_driver.run_gen(ctx, rep, ['G12', 'G3r', 'G8'], floors={'G12': 40, 'G3r': 100, 'G13': 30, 'G16': 2})
     lib_rules.check_L13(ctx, rep)
 
 
